@@ -1,5 +1,6 @@
 import PdfModel.Model.Parser
 import PdfModel.Model.Serialize
+import PdfModel.Spec.Syntax
 
 /-!
   The randomized, specification-conformant printer of C03 (PDF 32000-1 §7.2–7.3).
@@ -78,10 +79,8 @@ def startsRegular (s : List UInt8) : Bool :=
   | [] => false
   | b :: _ => isRegular b
 
-/-- values whose spelling ends in a regular character -/
-def needsBnd {R : Type} : Prim R → Bool
-  | .null | .int _ | .real _ | .bool _ | .ref _ _ | .name _ | .stream _ _ => true
-  | _ => false
+/-- values whose spelling ends in a regular character (`Spec/Syntax`) -/
+abbrev needsBnd {R : Type} (v : Prim R) : Bool := PdfSyntax.needsBnd v
 
 def zeros : Nat → List UInt8
   | 0 => []
@@ -253,9 +252,20 @@ def litBody : List UInt8 → List Bool → Tape → List UInt8 × Tape
     let (k, t) := continuation (p ++ r).head? t
     (k ++ p ++ r, t)
 
+/-- do the parentheses marked raw balance (`n` = open ones so far)?  Checked at run time, so that the printer
+    is conformant whatever `matchParens` computes. -/
+def rawOkFrom : Nat → List UInt8 → List Bool → Bool
+  | n, [], _ => n == 0
+  | n, b :: bs, raws =>
+    let raw := raws.head?.getD false
+    if raw && b == 40 then rawOkFrom (n + 1) bs (raws.drop 1)
+    else if raw && b == 41 then (n > 0) && rawOkFrom (n - 1) bs (raws.drop 1)
+    else rawOkFrom n bs (raws.drop 1)
+
 def litStrTok (s : List UInt8) (t : Tape) : List UInt8 × Tape :=
   let (rp, t) := draw 2 t
-  let raws := if rp == 1 then matchParens s else s.map fun _ => false
+  let cand := if rp == 1 then matchParens s else []
+  let raws := if rawOkFrom 0 s cand then cand else []
   let (b, t) := litBody s raws t
   (40 :: b, t)
 
